@@ -119,7 +119,9 @@ func c49(c *Ctx) {
 	c.Dom("after-reply", h, act, "n.activate()", GCall("responded.Do(write answer)", c.Calls(h, "(*sync.Once).Do")), GCond("answer==nil", h, Cmp(CallRes("(*"+r+".handler).handleCallMsg"), token.EQL, Nil())))
 	var hb *ssa.Function
 	for _, cl := range allClosures(c.Fn(r, "(*handler).handleBatch")) {
-		if len(c.Calls(cl, "(*"+r+".batchCallBuffer).write")) > 0 {
+		// the closure that processes the batch is the one that activates the notifiers (a deferred
+		// reply write is not a call site, so the reply write cannot be what identifies it)
+		if len(c.Calls(cl, "(*"+r+".Notifier).activate")) > 0 {
 			hb = cl
 		}
 	}
